@@ -192,7 +192,18 @@ pub trait Write {
             // (on Err a prefix of buf may have been written: unspecified)
             r is Ok && old(self).appending() ==> final(self).written() == old(self).written() + buf@ && final(self).appending();
 }
-pub trait Seek {}
+/// std::io::Seek for the writers `CasObject::serialize` is generic over (`W: Write + Seek`; the stub names `Write` as supertrait so that its contracts
+/// can speak about the stream).  An appending writer stands at the end of what has been written, so `stream_position()` reports
+/// `written().len()` = the length the stream had when the function was entered (ARBITRARY, never assumed 0: the stream may already hold an earlier
+/// xorb) + the bytes written since; it moves nothing.  `seek` is an uninterpreted move (afterwards the writer may or may not be appending).
+pub enum SeekFrom { Start(u64), End(i64), Current(i64) }
+pub trait Seek: Write {
+    fn stream_position(&mut self) -> (r: std::result::Result<u64, IoError>)
+        ensures final(self).written() == old(self).written(), final(self).appending() == old(self).appending(), final(self).origin() == old(self).origin(),
+            r matches Ok(p) ==> (old(self).appending() ==> p == old(self).written().len());
+    fn seek(&mut self, pos: SeekFrom) -> (r: std::result::Result<u64, IoError>)
+        ensures final(self).written() == old(self).written(), final(self).origin() == old(self).origin();
+}
 impl Write for Cursor<Vec<u8>> {
     open spec fn written(&self) -> Seq<u8> { self.inner@ }
     open spec fn appending(&self) -> bool { self.pos == self.inner@.len() }
@@ -201,7 +212,12 @@ impl Write for Cursor<Vec<u8>> {
     #[verifier::external_body]
     fn write_all(&mut self, buf: &[u8]) -> (r: std::result::Result<(), IoError>) { unimplemented!() }
 }
-impl Seek for Cursor<Vec<u8>> {}
+impl Seek for Cursor<Vec<u8>> {
+    #[verifier::external_body]
+    fn stream_position(&mut self) -> (r: std::result::Result<u64, IoError>) { unimplemented!() }
+    #[verifier::external_body]
+    fn seek(&mut self, pos: SeekFrom) -> (r: std::result::Result<u64, IoError>) { unimplemented!() }
+}
 
 // ---- CasObject::serialize: stub whose contract is the one PROVED in U-XORBIDX (text copied) + the name of the bytes written ----
 //@ extract cas_object/src/cas_object_format.rs type CasObjectIdent
@@ -515,6 +531,10 @@ impl CasObject {
             old(writer).appending(),
         ensures
             /*@C02,C07*/ r matches Ok((cas, total)) ==> cas.info.cashash == *hash && cas.info.num_chunks == chunk_and_boundaries@.len(),
+            // boundary i = number of bytes of THIS xorb written up to the end of chunk i: an offset from the xorb's first byte, whatever the length of
+            // the stream was when serialization began (it is what get_byte_offset / get_bytes_by_chunk_range consume, U-XORBRANGE)
+            /*@C07*/ r matches Ok((cas, total)) ==> cas.info.chunk_boundary_offsets@.len() == chunk_and_boundaries@.len()
+                && forall|i: int| 0 <= i < chunk_and_boundaries@.len() ==> cas.info.chunk_boundary_offsets@[i] == written_sum(data@, chunk_and_boundaries@, compression_scheme, i + 1),
             /*@C07,C14*/ r matches Ok((cas, total)) ==> total == written_sum(data@, chunk_and_boundaries@, compression_scheme, chunk_and_boundaries@.len() as int) + info_len(chunk_and_boundaries@.len()) + 4,
             // C14: the returned total is the number of bytes appended to the writer
             /*@C14*/ r matches Ok((cas, total)) ==> grew(*old(writer), *final(writer), total as nat),
@@ -536,8 +556,9 @@ impl CasObject {
                 /*@C07*/ cas.info.chunk_boundary_offsets@.len() == vx_i_boundary,
                 /*@C07,C14*/ total_written_bytes == written_sum(data@, c, compression_scheme, vx_i_boundary as int),
                 /*@C07*/ raw_start_idx == bound_before(c, vx_i_boundary as int),
+                /*@C07*/ forall|i: int| 0 <= i < vx_i_boundary ==> cas.info.chunk_boundary_offsets@[i] == written_sum(data@, c, compression_scheme, i + 1),
                 /*@C14*/ writer.written().len() == l0 + total_written_bytes && writer.appending(),
-//@ after `serialize_chunk(chunk_raw_bytes, writer, compression_scheme)?;`
+//@ after `let chunk_raw_bytes = &data[raw_start_idx as usize..chunk_boundary as usize];`
             proof { lemma_written_sum_mono(data@, c, compression_scheme, vx_i_boundary + 1, k as int); }
 //@ end
 }
